@@ -134,9 +134,9 @@ PROPS["C16"] = {
 }
 PROPS["C03"] = {
     "level": "exploration",
-    "technique": "model-based stateful property testing (rapid) with persistent committed readers + concurrent monitor under the race detector",
+    "technique": "model-based stateful property testing (rapid) with persistent committed readers + concurrent monitor under the race detector + generated catch-up histories of real followers with parked committed readers",
     "level_text": '(a) sequential interleavings with persistent committed readers: append / HW advance (anywhere, exactly on the last message of a segment, exactly on the first) / new reader (any start, beyond the HW, empty log) / read / read-only toggle, each read compared with the model (must deliver exactly the next committed message, or must not deliver anything); (b) real goroutines under the race detector: appender, HW advancer with lag and step, 1-6 readers created mid-run, read-only toggler; every reader checks online that what it gets is committed, consecutive, with the stored content, and reaches the final HW',
-    "level_note": 'one appending goroutine per log (as the leader loop / follower handler guarantee); (b) samples schedules, rapid cannot shrink them; negative expectations (must block) are positive-observation checks; operation parkro parks a reader at the HW in a real blocking ReadMessage while the log is switched to read-only: it must stay blocked if uncommitted messages remain and must end otherwise; SetHighWatermark with a lower value must be ignored; the concurrent unit runs two HW movers (as a leader has) and checks that the HW is never observed below a value whose SetHighWatermark call has returned',
+    "level_note": 'one appending goroutine per log (as the leader loop / follower handler guarantee); (b) samples schedules, rapid cannot shrink them; negative expectations (must block) are positive-observation checks; operation parkro parks a reader at the HW in a real blocking ReadMessage while the log is switched to read-only: it must stay blocked if uncommitted messages remain and must end otherwise; SetHighWatermark with a lower value must be ignored; the concurrent unit runs two HW movers (as a leader has) and checks that the HW is never observed below a value whose SetHighWatermark call has returned; unit C03c runs on three bare servers sharing a NATS server (the world of C02): the ISR is shrunk to the leader, committed readers are parked on the followers, the leader commits 4-14 messages alone and the followers then catch up in several small fetches (clustering.replication.max.bytes 150-600), each response carrying the leader HW: every message the follower HW covers at the end must have reached its parked reader once and in order',
     "rule": '(a) rapid draws 2-60 steps over segment sizes {1,64,150,300,1024}; non-trivial = a reader that blocked with the HW resting on the last message of a segment and later crossed into the next segment. (b) rapid draws batch sizes, lag, step, reader creation points and start fractions, toggles, yield pattern; non-trivial = >=2 readers parked in waitForHW at once and >=1 roll.',
     "assumptions": TRUST,
     "units": [
@@ -144,6 +144,9 @@ PROPS["C03"] = {
          "quick": {"shards": 16, "checks": 800}, "thorough": {"shards": 16, "checks": 8000, "timeout": 3000}},
         {"name": "C03b", "pkg": "server/commitlog", "test": "TestVerifC03b", "common": {"race": True},
          "quick": {"shards": 8, "checks": 60}, "thorough": {"shards": 16, "checks": 600, "timeout": 3000}},
+        # three bare servers: a committed reader blocked on a follower that is out of the ISR and catches up in several small fetches
+        {"name": "C03c", "pkg": "server", "test": "TestVerifC03c",
+         "quick": {"shards": 4, "checks": 10}, "thorough": {"shards": 16, "checks": 100, "timeout": 3000}},
     ],
 }
 
